@@ -223,6 +223,38 @@ def check_case(ctx: Ctx, c: Dict[str, Any], k: int = 0) -> None:
                     bad("flow_derivatives", f"{key} with mode=bspline, stride={st}: the spline of affine coefficients has first derivative {e} everywhere, got values off by {err:.3g}",
                         mode="bspline", what="first_stride")
                     break
+    # the Curl MODULE is the functional form with the constructor's options; FlowFields.curl (known broken wrapper) is not used
+    try:
+        from deepali.modules.flow import Curl
+
+        for okw in (dict(spacing=sp), dict(spacing=sp, mode="central"), dict(spacing=sp, sigma=0.7), dict()):
+            a_ = Curl(**okw)(flow)
+            b_ = U.curl(flow, **okw)
+            if a_.shape != b_.shape or max_err(a_, b_) > 1e-9 * max(1.0, float(b_.abs().max())):
+                bad("Curl", f"module constructed with {sorted(okw)} differs from curl() with the same options by {max_err(a_, b_) if a_.shape == b_.shape else 'shape'}", what="module", options=sorted(okw))
+                break
+    except Exception as ex:
+        bad("Curl", f"module raised {type(ex).__name__}: {str(ex)[:100]}", exc=type(ex).__name__, what="module")
+    # integer-valued fields given with an INTEGER dtype are differentiated like the same field in floating point (spacing is not an index)
+    if affine and all(float(v).is_integer() for comp in fld for v in [1]):
+        try:
+            fi = (flow * 4).round()
+            for dt_ in (torch.int64, torch.int32, torch.int16):
+                di = U.flow_derivatives(fi.to(dt_), order=1, spacing=sp)
+                df = U.flow_derivatives(fi.to(torch.float32), order=1, spacing=sp)
+                for key in df:
+                    if key not in di or not di[key].dtype.is_floating_point or not bool(torch.isfinite(di[key]).all()) or max_err(di[key], df[key]) > 1e-5 * max(1.0, float(df[key].abs().max())):
+                        bad("flow_derivatives", f"{key} of an integer-typed ({dt_}) field differs from the derivative of the same field in float32", what="int_dtype", dtype=str(dt_))
+                        raise StopIteration
+                ji = U.jacobian_det(fi.to(dt_))
+                jf = U.jacobian_det(fi.to(torch.float32))
+                if not bool(torch.isfinite(ji.float()).all()) or max_err(ji.float(), jf) > 1e-4 * max(1.0, float(jf.abs().max())):
+                    bad("jacobian_det", f"of an integer-typed ({dt_}) field with the default spacing differs from the float32 result", what="int_dtype", dtype=str(dt_))
+                    raise StopIteration
+        except StopIteration:
+            pass
+        except Exception as ex:
+            bad("flow_derivatives", f"integer-typed field raised {type(ex).__name__}: {str(ex)[:100]}", exc=type(ex).__name__, what="int_dtype")
     # assembled quantities (default scheme) at the interior probes
     try:
         jd = U.jacobian_dict(flow, spacing=sp)
